@@ -218,7 +218,7 @@ func (o *oPause) step(s *stepCtx) {
 	if !s.racing && len(s.entries) == 0 {
 		st := s.before.Status
 		notStarted := st == datatransfer.Requested || st == datatransfer.Queued
-		if s.act.Kind == "ResumeInitiator" && s.before.InitPaused && (notStarted || st.Transferring()) {
+		if s.act.Kind == "ResumeInitiator" && s.before.InitPaused && (notStarted || isTransferring(st)) {
 			s.h.fail("C11/resume-ignored-while-paused", "ResumeInitiator was ignored in status %s although the initiator is recorded as paused", datatransfer.Statuses[st])
 		}
 		responderRunning := notStarted || st == datatransfer.AwaitingAcceptance || st == datatransfer.Ongoing || st == datatransfer.TransferFinished
@@ -315,6 +315,15 @@ func (o *oAcct) model(c *chanCtx) *acctModel {
 	return m
 }
 
+// isTransferring: the statuses in which payload moves (literal list, not the library's predicate).
+func isTransferring(st datatransfer.Status) bool {
+	switch st {
+	case datatransfer.Ongoing, datatransfer.ResponderCompleted, datatransfer.ResponderFinalizing, datatransfer.AwaitingAcceptance:
+		return true
+	}
+	return false
+}
+
 func dirBytes(v Vec, kind string) (uint64, int64) {
 	switch kind {
 	case "DataQueued":
@@ -344,7 +353,7 @@ func (o *oAcct) step(s *stepCtx) {
 		return
 	}
 	d := m.dirs[a.Kind]
-	transferring := s.before.Status.Transferring()
+	transferring := isTransferring(s.before.Status)
 	wantCount := a.Unique && a.Index > d.hw
 	if a.Index <= d.maxIdx {
 		o.replayed++
